@@ -16,6 +16,9 @@ package message
 
 import (
 	"bytes"
+	encbinary "encoding/binary"
+	"errors"
+	"io"
 	"sort"
 	"time"
 
@@ -100,11 +103,27 @@ func DecodeMessage(buf []byte) (out Message, err error) {
 
 	// We need to allocate, given that the unmarshal is now no-copy. By using 'nil' as destination
 	// we make sure that the underlying buffer is calculated based on the decoded length.
-	if buf, err = snappy.Decode(nil, buf); err == nil {
+	if buf, err = decodeSnappy(buf); err == nil {
 		err = binary.Unmarshal(buf, &out)
 	}
 
 	return
+}
+
+// errCorrupt is returned for payloads which announce more data than they can possibly carry.
+var errCorrupt = errors.New("message: corrupt payload")
+
+// decodeSnappy decompresses the buffer after checking the announced length: a snappy block
+// can not expand by more than a factor of ~21, anything above that is not worth allocating for.
+func decodeSnappy(buf []byte) ([]byte, error) {
+	n, err := snappy.DecodedLen(buf)
+	if err != nil {
+		return nil, err
+	}
+	if n > 32*len(buf) {
+		return nil, errCorrupt
+	}
+	return snappy.Decode(nil, buf)
 }
 
 // ------------------------------------------------------------------------------------
@@ -170,7 +189,12 @@ func DecodeFrame(buf []byte) (out Frame, err error) {
 
 	// We need to allocate, given that the unmarshal is now no-copy. By using 'nil' as destination
 	// we make sure that the underlying buffer is calculated based on the decoded length.
-	if buf, err = snappy.Decode(nil, buf); err == nil {
+	if buf, err = decodeSnappy(buf); err == nil {
+		// every message takes at least 4 bytes: a frame announcing more messages than the buffer
+		// can hold ends prematurely, do not allocate for it
+		if n, k := encbinary.Uvarint(buf); k <= 0 || n > uint64(len(buf)-k)/4 {
+			return nil, io.EOF
+		}
 		err = binary.Unmarshal(buf, &out)
 	}
 	return
